@@ -167,7 +167,7 @@ func (c *Ctx) mustPrecede(fn *ssa.Function, a Sel, aname string, b Sel, bname st
 	var bad []string
 	s := atEntry(fn)
 	seenBad := map[ssa.Instruction]bool{}
-	ir.WalkPaths(s.b, s.idx, s.pred, nil, func(in ssa.Instruction, incoming func(*ssa.Phi) (ssa.Value, bool)) bool {
+	ir.WalkPaths(s.b, s.idx, s.pred, c.precedeCut, func(in ssa.Instruction, incoming func(*ssa.Phi) (ssa.Value, bool)) bool {
 		if a(in) {
 			return false
 		}
